@@ -59,7 +59,7 @@ def run(ctx):
         "RackAffinity: each group called 4 (quick) / 12 (thorough) times, every distinct output is a case (Go map order is sampled, not controlled). "
         "round 4: xtopics (extractTopics), v<balancer> (Generation.Assignments after fetchOffsets/makeAssignments), byte level abytes/aread/mbytes/mread (600 / 8000 values: names up to 400 bytes, any int32, nil/empty user data, cut frames), life cycle l<balancer>: 9 / 60 histories of 2..5 real ConsumerGroups joining and leaving against an in-process coordinator, one case per stable generation (a phase that does not stabilise within 4 s is skipped, never a violation). "
         "round 5: w<balancer> = a round in which one subscribed topic does not exist (Metadata answer read by the real readTopicMetadatav1; 1/4 of the random groups with >= 2 topics); life-cycle racks decoded from the members' real JoinGroup metadata. "
-        "ltrace: 6 / 40 histories of real ConsumerGroups (Range) against groupmock.Sim, coordinator answers recorded and replayed through the executable acceptor of Model/GroupRound (accepted + every SyncGroup answer predicted). exhaustive budget measured from the driver lines (coverage.exhaustive_budget). "
+        "ltrace2: the life histories of Range / RoundRobin (heterogeneous subscriptions) replayed through the same acceptor from the harness coordinator's own trace. ltrace: 6 / 40 histories of real ConsumerGroups (Range) against groupmock.Sim, coordinator answers recorded and replayed through the executable acceptor of Model/GroupRound (accepted + every SyncGroup answer predicted). exhaustive budget measured from the driver lines (coverage.exhaustive_budget). "
         "distinct = distinct op lines with a non-empty assignment")
     concrete = [d for d in dis if d.get("kind") == "disagreement" and not d["holds_on_impl"]]
     cids = {id(d) for d in concrete}          # (list membership on 10^5 dicts is quadratic: a mutant must cost seconds)
